@@ -5,6 +5,7 @@ package transaction
 
 import (
 	"bytes"
+	"errors"
 	"fmt"
 	"strings"
 	"time"
@@ -81,8 +82,11 @@ func Commit(db objects.Store, rs ref.Store, id uuid.UUID) (commits map[string]*o
 		oldSum, err := ref.GetHead(rs, branch)
 		if err == nil {
 			com.Parents = [][]byte{oldSum}
-		} else {
+		} else if errors.Is(err, ref.ErrKeyNotFound) {
 			com.Parents = nil
+		} else {
+			// the branch may well exist: committing without a parent would drop its history
+			return nil, err
 		}
 		firstLine := ref.FirstLine(com.Message)
 		com.Message = fmt.Sprintf("commit [tx/%s]\n%s", id, com.Message)
